@@ -41,7 +41,8 @@ class CombinationMatcher(mcore.Matcher):
         return all(m.supports_block_quality() for m in self._submatchers)
 
     def max_quality(self):
-        return max(m.max_quality() for m in self._submatchers
+        # score() adds the sub-matchers' scores, so the bound is the sum
+        return sum(m.max_quality() for m in self._submatchers
                    if m.is_active()) * self._boost
 
     def supports(self, astype):
@@ -244,7 +245,11 @@ class ArrayUnionMatcher(CombinationMatcher):
         return self._docnum < self._doccount
 
     def max_quality(self):
-        return max(m.max_quality() for m in self._submatchers)
+        # The buffered part holds final scores; beyond it a document's score
+        # is the sum of the boosted scores of the sub-matchers still active
+        future = sum(m.max_quality() for m in self._submatchers
+                     if m.is_active()) * self._boost
+        return max(max(self._a), future)
 
     def block_quality(self):
         return max(self._a)
